@@ -9,7 +9,7 @@
 From Coq Require Import ZArith Bool Lia List.
 Import ListNotations.
 From MomoCommon Require Import GenPrelude.
-From C01 Require Gen_UnlimP Gen_LimP1 Gen_LimP1t Gen_LimP1f Gen_Lim4 Gen_LimP.
+From C01 Require Gen_UnlimP Gen_LimP1 Gen_LimP1t Gen_LimP1f Gen_Lim4 Gen_LimP Gen_One.
 Local Open Scope Z_scope.
 
 (* UnlimP: never full, never "was full", max probe 0  ==  the model parameters unlimited = true, wf0 = false, bound kind 1 *)
@@ -102,4 +102,32 @@ Proof.
   intros c H. assert (Hc : c = 1 \/ c = 2 \/ c = 3 \/ c = 4 \/ c = 5 \/ c = 6 \/ c = 7 \/ c = 8) by lia.
   destruct Hc as [E|[E|[E|[E|[E|[E|[E|E]]]]]]]; subst c; vm_compute; split; intros; try discriminate; try lia; auto;
     match goal with H : _ |- _ => try (exfalso; apply H; reflexivity) end.
+Qed.
+
+(* ================= growth round 2: BucketOne (64-bit hash state), regenerated AddCrt / Remove / Clear / IsFull / WasFull =================
+   the model's parameters for kind One are cap = 1, wf0 = false, wfThr = 1: a cleared bucket is neither full nor was-full, AddCrt makes it
+   full and was-full, Remove makes it not full but leaves was-full set (sticky), Clear resets both. *)
+Lemma lor1_odd x : 0 <= x -> Z.land (Z.lor x 1) 1 = 1.
+Proof.
+  intros H. rewrite Z.land_lor_distr_l. change (Z.land 1 1) with 1.
+  change 1 with (Z.ones 1) at 1. rewrite Z.land_ones by lia. change (2 ^ 1) with 2.
+  pose proof (Z.mod_pos_bound x 2 ltac:(lia)) as B. assert (E : x mod 2 = 0 \/ x mod 2 = 1) by lia.
+  destruct E as [E|E]; rewrite E; reflexivity.
+Qed.
+
+Theorem one_ops_facts :
+  (Gen_One.IsFull (Gen_One.Clear 0) = false /\ Gen_One.WasFull (Gen_One.Clear 0) = false) /\
+  (forall st hc, Gen_One.IsFull st = false ->
+     exists st', Gen_One.AddCrt st hc = Ok (tt, st') /\ Gen_One.IsFull st' = true /\ Gen_One.WasFull st' = true) /\
+  (forall st a, Gen_One.IsFull st = true ->
+     exists st', Gen_One.Remove st a a = Ok (tt, st') /\ Gen_One.IsFull st' = false /\ Gen_One.WasFull st' = true).
+Proof.
+  split; [split; reflexivity|]. split.
+  - intros st hc H. unfold Gen_One.AddCrt. rewrite H. simpl negb. cbv iota. eexists. split; [reflexivity|].
+    unfold Gen_One.pvGetHashState, Gen_One.IsFull, Gen_One.WasFull.
+    assert (Hw : 0 <= wrapU 64 (Z.shiftl hc 1)) by (apply wrapU_range; lia).
+    rewrite lor1_odd by auto. split; [reflexivity|].
+    destruct (Z.eqb_spec (Z.lor (wrapU 64 (Z.shiftl hc 1)) 1) 0) as [E|E]; auto.
+    exfalso. pose proof (lor1_odd _ Hw) as O. rewrite E in O. discriminate.
+  - intros st a H. unfold Gen_One.Remove. rewrite Z.eqb_refl, H. eexists. split; [reflexivity|]. split; reflexivity.
 Qed.
